@@ -54,3 +54,46 @@ Definition run_c15 (i : c15_in) : list tuple :=
   let fo := if N.eqb (i_mode i) 1 then FlagHelp else if N.eqb (i_mode i) 2 then FlagError else FlagOk in
   let lo := if N.eqb (i_mode i) 3 then LintFatal else LintDone (length out) in
   out ++ [[1000%N; main_status fo (N.eqb (i_mode i) 4) lo]].
+
+(* ---- several repositories (nested.go stream of the harness) -------------- *)
+From AL Require Import Multi.Project Out.MultiRoot.
+
+Record c15n_in := mkNIn {
+  n_cwd : string;
+  n_repos : list (string * option (list (N * list (list N))));   (* root, `paths` section (glob id, ignore patterns) *)
+  n_files : list frun;                                            (* in argument order *)
+  n_cli : list (list N);
+  n_glob : list (N * string * bool)
+}.
+
+Definition n_repo_list (i : c15n_in) : list (repo (list N) N) :=
+  map (fun rc => (p_comps (parse_path (fst rc)), snd rc)) (n_repos i).
+
+(* every (glob, path) question the model asks must have been answered by the harness *)
+Definition n_asked (i : c15n_in) (arg : string) : bool :=
+  let cwd := parse_path (n_cwd i) in
+  match project_of (list N) N (n_repo_list i) [] cwd (parse_path arg) with
+  | Some r =>
+      match repo_lookup (list N) N (n_repo_list i) r with
+      | Some (Some paths) =>
+          let p := show_path (cfg_path cwd (mkPath true r) (parse_path arg)) in
+          forallb (fun gc => match glob_lookup (n_glob i) (fst gc) p with Some _ => true | None => false end) paths
+      | _ => true
+      end
+  | None => true
+  end.
+
+Fixpoint n_tuples (k : N) (outs : list (list (diag N))) : list tuple :=
+  match outs with
+  | [] => []
+  | ds :: outs' => map (fun d => [k; d_line d; d_col d; d_msg d]) ds ++ n_tuples (N.succ k) outs'
+  end.
+
+Definition run_c15n (i : c15n_in) : list tuple :=
+  if forallb (fun f => n_asked i (f_arg f)) (n_files i) then
+    let outs := check_files (list N) N N tbl_matches (tbl_glob (n_glob i)) (n_repo_list i) [] (n_cli i)
+                            (parse_path (n_cwd i))
+                            (map (fun f => (parse_path (f_arg f), map to_diag (f_es f))) (n_files i)) in
+    let out := n_tuples 0%N outs in
+    out ++ [[1000%N; main_status FlagOk false (LintDone (length out))]]
+  else [[9999%N]].
